@@ -124,6 +124,37 @@ def run(ctx):
             elif ret in (101, 102): why = 'internal return code leaked'
             if why:
                 bad.append(dict(history=h, call_index=i, token=t, observed=g, model=mm, why=why)); break
+    # ---- stall histories on the real decoders: at every split offset of valid files, a call without new input returns
+    # LZMA_OK, the next one LZMA_BUF_ERROR, neither is fatal, and the rest of the input then decodes as in one piece
+    import lzma as _lz, xzgen
+    from decode_common import run_lines, LZMA_CONCATENATED
+    from props.c16 import lz_member
+    ddrv = compile_driver('hook', 'drv_dec.c', 'drv_dec')
+    sdata = (xzgen.gen_data(rng, 300) * 3)[:700]
+    sfiles = [(0, LZMA_CONCATENATED, xzgen.gen_mt_xz(rng, 3, bsize=(100, 300))[0], 'xz three Blocks'),
+              (0, 0, _lz.compress(sdata, format=_lz.FORMAT_XZ, check=_lz.CHECK_SHA256, filters=[{'id': _lz.FILTER_DELTA, 'dist': 2}, {'id': _lz.FILTER_LZMA2, 'dict_size': 4096}]), 'xz delta sha256'),
+              (2, 0, _lz.compress(sdata, format=_lz.FORMAT_XZ, check=_lz.CHECK_CRC32), 'auto xz'),
+              (3, 0, _lz.compress(sdata, format=_lz.FORMAT_ALONE, filters=[{'id': _lz.FILTER_LZMA1, 'dict_size': 4096}]), 'lzma'),
+              (4, 0, lz_member(rng, sdata, dict_code=12), 'lz')]
+    sl, sm = [], []
+    for k, fl, b, lab in sfiles:
+        offs = range(0, len(b)) if (len(b) <= 500 or not ctx.quick()) else sorted(set(rng.sample(range(len(b)), 250)) | set(range(len(b) - 40, len(b))))
+        sl.append('dec %d %d 0 0 0 %s' % (k, fl, b.hex())); sm.append((lab, -1))
+        for o in offs: sl.append('dec %d %d 5 %d 0 %s' % (k, fl, o, b.hex())); sm.append((lab, o))
+    so, sf_ = run_lines(ddrv, sl)
+    for x in sf_: bad.append(dict(history=(x[0] or '')[:3000], why='decoder crashed in a stall history', stderr=x[1][-1500:]))
+    sbase = {}
+    for (lab, o), l, r_ in zip(sm, sl, so):
+        if r_ is None: continue
+        t = r_.split()
+        if o < 0: sbase[lab] = t; continue
+        stats['calls'] += int(t[3])
+        bt = sbase.get(lab)
+        why = None
+        if len(t) > 5 and t[5] != 'S0,10': why = 'calls without new input returned %s (LZMA_OK then LZMA_BUF_ERROR expected)' % t[5][1:]
+        elif bt and (t[0], t[2], t[4]) != (bt[0], bt[2], bt[4]): why = 'after the stalled calls the rest did not decode as in one piece: status %s (expected %s)' % (t[0], bt[0])
+        if why: bad.append(dict(history='%s, stall after %d input bytes: %s' % (lab, o, l[:2000]), why=why))
+    stats['stall_histories'] = len(sl)
     ctx.cov['evaluations'] = stats['calls']
     ctx.cov['distinct_nontrivial'] = len(distinct)
     ctx.cov['rule'] = ('random call histories on one handle (12 coder kinds, re-init without end, lzma_end, actions 0..6, flush started then changed, NULL buffers, reserved fields, zero-length calls) + corpus; '
